@@ -140,7 +140,8 @@ def eval_large(case):
 
 
 def shards(ctx):
-    build.build("asm")
+    for c in ("asm", "c64", "c32"):
+        build.build(c)
     U = c11.universe(ctx)
     vals = wk.values(ctx.seed)
     reach = wk.reachable(U["l"], U["names"], vals, witnesses=1)
@@ -148,6 +149,10 @@ def shards(ctx):
     for st, hists in sorted(reach.items(), key=lambda kv: str(kv[0])):
         out.append({"state": [st[0], list(st[1])], "history": hists[0]})
     ctx.extra["abstract_states"] = len(reach)
+    # the other compilers / optimisation levels / ABI choices see every 4th state as well
+    for k, (st, hists) in enumerate(sorted(reach.items(), key=lambda kv: str(kv[0]))):
+        if k % 4 in (1, 3):
+            out.append({"state": [st[0], list(st[1])], "history": hists[0], "cfg": "c64" if k % 4 == 1 else "c32"})
     slots = [31, 32, 33, 63, 64] if ctx.tier == "quick" else [7, 8, 15, 16, 17, 31, 32, 33, 62, 63, 64]
     ns = [5, 9, 17, 33, 65] if ctx.tier == "quick" else wk.LONG_N
     for k, i in enumerate(slots):
@@ -167,7 +172,7 @@ def run_shard(ctx, shard):
     vals = wk.values(ctx.seed)
     state = (shard["state"][0], tuple(shard["state"][1]))
     pat = state[1]
-    base = {"cfg": "asm", "l": U["l"], "sig": False, "seed": ctx.seed, "history": shard["history"]}
+    base = {"cfg": shard.get("cfg", "asm"), "l": U["l"], "sig": False, "seed": ctx.seed, "history": shard["history"]}
 
     def emit(case, nontrivial, outcome):
         msgs = eval_case(case)
